@@ -135,6 +135,8 @@ def base_env(home, extra=None, path_prefix=None):
         "LC_ALL": "C.UTF-8",
         "TMPDIR": home,
     }
+    if os.environ.get("LLVM_PROFILE_FILE"):
+        env["LLVM_PROFILE_FILE"] = os.environ["LLVM_PROFILE_FILE"]  # bin/coverage.sh
     if os.environ.get("VERIF_ASAN_LOG"):
         env["ASAN_OPTIONS"] = "log_path=%s:detect_leaks=0:abort_on_error=1:allocator_may_return_null=1:max_allocation_size_mb=4096" % os.environ["VERIF_ASAN_LOG"]
     if extra:
@@ -349,7 +351,9 @@ done
 host="$1"; shift
 cmd="$*"
 if [ -n "$SSH_STANDIN_LOG" ]; then
-  printf '%s\0' "$cmd" >> "$SSH_STANDIN_LOG"
+  # one file per invocation: concurrent transfers must not interleave their records
+  # (bash flushes printf output at every newline, and commands may contain newlines)
+  printf '%s' "$cmd" > "$SSH_STANDIN_LOG.$$.$RANDOM"
 fi
 cd "$HOME" || exit 255
 exec /bin/bash -c "$cmd"
@@ -370,7 +374,27 @@ def install_standin(bindir):
 
 
 def read_standin_log(path):
-    if not os.path.exists(path):
-        return []
-    with open(path, "rb") as f:
-        return [c.decode("utf-8", "surrogateescape") for c in f.read().split(b"\0") if c]
+    """All remote commands logged under the prefix `path` (one file per ssh invocation; unordered)."""
+    d, base = os.path.dirname(path), os.path.basename(path) + "."
+    out = []
+    if not os.path.isdir(d):
+        return out
+    for fn in sorted(os.listdir(d)):
+        if fn.startswith(base):
+            try:
+                with open(os.path.join(d, fn), "rb") as f:
+                    out.append(f.read().decode("utf-8", "surrogateescape"))
+            except OSError:
+                pass
+    return out
+
+
+def clear_standin_log(path):
+    d, base = os.path.dirname(path), os.path.basename(path) + "."
+    if os.path.isdir(d):
+        for fn in os.listdir(d):
+            if fn.startswith(base):
+                try:
+                    os.unlink(os.path.join(d, fn))
+                except OSError:
+                    pass
